@@ -52,11 +52,10 @@ def run(ctx):
     if runner is None:
         ctx.oblige("extracted parser/channel runner builds", False, "see notes")
     else:
-        cases = PC.build_cases(rng, 300 if thorough else 40, small_atoms=1)
+        cases = PC.build_cases(rng, 700 if thorough else 40, small_atoms=2 if thorough else 1)
         nover = 0
         nskip_hex = 0
         budget = 2.5e8 if thorough else 6e7     # ~1e7 units per second of model time
-        big_heads = 4 if thorough else 0
         for c in all_cases:
             total = sum(len(r) for r in c["reads"])
             # the model prints every carry field after every read and its regex
@@ -65,10 +64,10 @@ def run(ctx):
             vol = len(c["reads"]) * total
             if vol > 7e7 or vol > budget:
                 continue
-            if total > 70000 and c["kind"].startswith("head-terminated"):
-                if big_heads <= 0:
-                    continue
-                big_heads -= 1
+            if total > 20000 and c["kind"] == "head-terminated-1":
+                # a delivered head with one header line of > 20 kB: the model's regex
+                # matcher is quadratic in the line length (minutes); real code only
+                continue
             budget -= vol
             # a chunk size of thousands of hex digits: the extracted model computes
             # firstn (N.to_nat rm) with a unary nat and cannot run it (the Coq term is
@@ -115,7 +114,7 @@ def run(ctx):
         nontrivial.add((c["kind"], c["mh"], c["mb"], c["recv"], len(c["prefix_paths"])))
         if bad:
             failures.append((c, res, bad))
-    ngen = 2500 if thorough else 350
+    ngen = 8000 if thorough else 350
     for c in L.gen_generic(rng, ngen):
         res = L.drive(c["mh"], c["mb"], c["reads"])
         evaluations += 1
